@@ -14,7 +14,7 @@ RULE = ("ent: coefficient images from a formula (sparse, flat, extreme amplitude
         "the real encoder (C and SIMD Huffman encoders) must equal, byte for byte, what the Lean encoder - the function the theorems are "
         "about - produces for the same coefficients")
 TRUSTED = ["Model.T81 is a decoder written from ITU-T T.81 (marker syntax, Annex C table construction, Annex F/G decoding procedures); "
-           "Model.SeqHuff is the block coder of jchuff.c; arithmetic-coded streams are checked on the real code only (QM coder not modelled)"]
+           "Model.SeqHuff is the block coder of jchuff.c; Model.Arith is an executable model of the QM decoder and the coefficient binarisation of jdarith.c (tied on every arithmetic stream, no theorems)"]
 ASSUMPTIONS = ["identical pixels follow from identical coefficients because decompression is a function of the coefficient arrays and settings"]
 
 SS = [0, 1, 2, 3, 4, 5, 6, 3, 0, 2, 21, 12, 22, 41, 14, 100, 101, 102]
@@ -111,8 +111,8 @@ MANIFEST = {
              "decoder is tied to libjpeg-turbo's on every stream the harness makes the real encoder write, and the property itself is "
              "checked on the real code against the source coefficients."),
     "design_ref": "DESIGN.md 6.3",
-    "note": ("Partial: the progressive EOBRUN/correction-bit state machines and the QM coder are not proved; they are covered by the tie "
-             "(progressive) and by the real-code oracle (arithmetic). Trusted: Lean kernel; axioms propext, Quot.sound, Classical.choice; "
+    "note": ("Partial: the progressive EOBRUN/correction-bit state machines and the QM coder are modelled and tied (independent reader = "
+             "libjpeg-turbo on every emitted stream) but not proved. Trusted: Lean kernel; axioms propext, Quot.sound, Classical.choice; "
              "hand-written models tied by correspondence."),
     "technique": "Lean 4 proof (induction over the coefficient list, prefix-code lemma from C19) + independent-decoder correspondence + real-code oracle",
 }
